@@ -33,7 +33,7 @@ LEVEL_TEXT = (
 )
 LEVEL_NOTE = "Faults are injected only at the four observer phases, not inside a phase."
 
-CFG = gen.Cfg(facilities=True, max_tasks=6, max_time=[40], abs_max=12, chain_components=True, due=True,
+CFG = gen.Cfg(onesided=4, facilities=True, max_tasks=6, max_time=[40], abs_max=12, chain_components=True, due=True,
               work_pool=[0.0, 0.5, 1.0, 1.0, 2.0, 3.0], kinds=[0, 0, 0, 0, 1, 2, 3])
 CFG_N = CFG.copy(nested="assembly")
 PH = ["updated", "allocated", "performed", "recorded"]
@@ -135,6 +135,8 @@ def run_one(spec, due, rev, fault, res, fresh_dump, want_order):
             res.fail("C17.alignment", "%s: project.time=%d but %s has %d entries" % (where, p.time, bad[0][0], bad[0][1]), sig=bad[0][0].split(".")[-1])
         if int(p.simulation_mode) != -1:
             res.fail("C17.mode", "%s: simulation_mode is %d after a backward run" % (where, int(p.simulation_mode)))
+    if res.violations:
+        return raised, steps  # the structure is already corrupt: a forward run on it proves nothing more
     # a later forward simulate is unaffected
     S.simulate(p, spec["opts"])
     d = S.dump(p)
